@@ -866,7 +866,24 @@ func gateLike(ifi *ssa.If) (bool, int) {
 // RoundTrip failure path) and evaluates its connection-failure branches against the gate.
 // errorWrapperOf finds the error wrapper: the repo function error→error the per-attempt functions (or their helpers) apply
 // to the error of RoundTrip. scope: the attempt functions with the helpers of their package they call.
+var errorWrapperMemo = map[*Ctx]struct {
+	w     *ssa.Function
+	scope []*ssa.Function
+}{}
+
 func errorWrapperOf(c *Ctx) (*ssa.Function, []*ssa.Function) {
+	if m, ok := errorWrapperMemo[c]; ok {
+		return m.w, m.scope
+	}
+	w, scope := errorWrapperSearch(c)
+	errorWrapperMemo[c] = struct {
+		w     *ssa.Function
+		scope []*ssa.Function
+	}{w, scope}
+	return w, scope
+}
+
+func errorWrapperSearch(c *Ctx) (*ssa.Function, []*ssa.Function) {
 	// wrapper: static callee in attempt functions whose first param and single result are `error`
 	var wrapper *ssa.Function
 	onRT := false
